@@ -9,10 +9,50 @@ import (
 	"fmt"
 	"strings"
 
+	"github.com/ipfs/go-cid"
+	"github.com/multiformats/go-multibase"
+	mh "github.com/multiformats/go-multihash"
+
 	"github.com/anyproto/any-sync/commonspace/object/tree/treechangeproto"
-	"github.com/anyproto/any-sync/util/cidutil"
 	"github.com/anyproto/any-sync/util/crypto"
 )
+
+// canonicalCid: the one textual id of some bytes (CIDv1, dag-cbor, sha2-256, base32 lower case),
+// computed with the CID libraries directly - the oracles must not ask the code under test
+// (util/cidutil) whether an id is right.
+func canonicalCid(raw []byte) cid.Cid {
+	h, err := mh.Sum(raw, mh.SHA2_256, -1)
+	if err != nil {
+		panic(err)
+	}
+	return cid.NewCidV1(cid.DagCBOR, h)
+}
+
+// aliasId: another spelling of the id of the same bytes - same digest, byte-different string
+func aliasId(raw []byte, sub int) (string, string) {
+	c := canonicalCid(raw)
+	enc := func(b multibase.Encoding) string {
+		s, err := c.StringOfBase(b)
+		if err != nil {
+			panic(err)
+		}
+		return s
+	}
+	switch sub % 6 {
+	case 0:
+		return enc(multibase.Base32Upper), "base32upper spelling of the id"
+	case 1:
+		return enc(multibase.Base58BTC), "base58btc spelling of the id"
+	case 2:
+		return enc(multibase.Base16), "base16 spelling of the id"
+	case 3:
+		return enc(multibase.Base64url), "base64url spelling of the id"
+	case 4:
+		return cid.NewCidV1(cid.Raw, c.Hash()).String(), "same digest under the raw codec"
+	default:
+		return cid.NewCidV0(c.Hash()).String(), "same digest as CIDv0"
+	}
+}
 
 // a change record of the specification (TreeAuthGen.Member)
 type member struct {
@@ -26,6 +66,7 @@ type member struct {
 	CidOk bool   `json:"cidOk"`
 	SigOk bool   `json:"sigOk"`
 	Tw    int    `json:"tw"` // != 0: carries the signed payload of change Tw, without a signature field
+	Al    bool   `json:"al"` // the id is another spelling of the hash of the bytes
 }
 
 // batch descriptor of the specification (TreeAuth.Descs)
@@ -34,6 +75,7 @@ type desc struct {
 	Pos   int    `json:"pos"`
 	After string `json:"after"`
 	Fa    string `json:"fa"`
+	Pre   bool   `json:"pre"`
 	Fc    int    `json:"fc"`
 	Au    string `json:"au"`
 	Cite  int    `json:"cite"`
@@ -42,7 +84,7 @@ type desc struct {
 }
 
 func (d desc) String() string {
-	return fmt.Sprintf("nf=%d pos=%d after=%s fa=%s fc=%d au=%s cite=%d pk=%s m=%s", d.Nf, d.Pos, d.After, d.Fa, d.Fc, d.Au, d.Cite, d.Pk, d.M)
+	return fmt.Sprintf("nf=%d pos=%d after=%s fa=%s fc=%d au=%s cite=%d pk=%s m=%s pre=%v", d.Nf, d.Pos, d.After, d.Fa, d.Fc, d.Au, d.Cite, d.Pk, d.M, d.Pre)
 }
 
 const unknownModelId = 99
@@ -85,13 +127,7 @@ func twinOf(genuine *treechangeproto.RawTreeChangeWithId, sub int) (*treechangep
 	return &treechangeproto.RawTreeChangeWithId{RawChange: b, Id: reid(b)}, what + ", id recomputed"
 }
 
-func reid(raw []byte) string {
-	id, err := cidutil.NewCidFromBytes(raw)
-	if err != nil {
-		panic(err)
-	}
-	return id
-}
+func reid(raw []byte) string { return canonicalCid(raw).String() }
 
 func splitRaw(raw []byte) (*treechangeproto.RawTreeChange, *treechangeproto.TreeChange, error) {
 	outer := &treechangeproto.RawTreeChange{}
@@ -181,6 +217,9 @@ func (t *treeWorld) mutate(c member, m string, sub int, base *treechangeproto.Ra
 		default:
 			return &treechangeproto.RawTreeChangeWithId{RawChange: cp(), Id: strings.ToUpper(base.Id)}, "id upper-cased"
 		}
+	case "idAlias":
+		id, what := aliasId(base.RawChange, sub)
+		return &treechangeproto.RawTreeChangeWithId{RawChange: cp(), Id: id}, what
 	case "idDup":
 		return &treechangeproto.RawTreeChangeWithId{RawChange: cp(), Id: t.realId(c.Id)}, "id of a change the tree already holds"
 	case "swap":
@@ -239,7 +278,7 @@ type reading struct {
 
 // read interprets raw bytes with the protobuf types and crypto primitives only (no tree code).
 func (t *treeWorld) read(id string, raw []byte) reading {
-	r := reading{cidOk: cidutil.VerifyCid(raw, id)}
+	r := reading{cidOk: canonicalCid(raw).String() == id}
 	outer := &treechangeproto.RawTreeChange{}
 	if err := outer.UnmarshalVT(raw); err != nil {
 		return r
